@@ -3,6 +3,7 @@ import M3d.Model.Numeric
 import M3d.Model.Svd2
 import M3d.Model.Curves
 import M3d.Model.Search
+import M3d.Model.BiCG
 import M3d.Gen.Binomial
 /-!
 Line-protocol handler for C17.  Core-only.
@@ -277,6 +278,38 @@ def handleBez (cd : Codec α) (exact : Bool) (ws : List String) : Option String 
       deCasteljau xs (t + (o - t) * u), deCasteljau ys (t + (o - t) * u)])
   | _ => none
 
+/-- `bezops <curve> <m> (e t | s t)…`: a sequence of `Eval`/`Split` calls on ONE curve value; answer: every result,
+then the control points afterwards, then `backing=ok` (nothing outside or inside the slice was written).  Exact
+mode prints the specification (`bezier_ops_sequence`: every call answers for the original points), bit mode the
+faithful run `bezRun` at `Float`. -/
+def parseBezOps (cd : Codec α) : Nat → List String → Option (List (BezOp α))
+  | 0, _ => some []
+  | n + 1, "e" :: t :: r => do
+    let t ← cd.parse t
+    let rest ← parseBezOps cd n r
+    some (BezOp.eval t :: rest)
+  | n + 1, "s" :: t :: r => do
+    let t ← cd.parse t
+    let rest ← parseBezOps cd n r
+    some (BezOp.split t :: rest)
+  | _, _ => none
+
+def handleBezOps (cd : Codec α) (exact : Bool) (ws : List String) : Option String := do
+  let (xs, ys, r) ← takeCurve cd ws
+  let m ← (← r.head?).toNat?
+  let ops ← parseBezOps cd m (r.drop 1)
+  if xs.length < 2 then some "panic" else
+  let run : List α → List (BezRes α) × List α := fun b =>
+    if exact then (ops.map (bezOpSpec b), b) else bezRun tbl b ops
+  let rx := run xs; let ry := run ys
+  let one : BezRes α × BezRes α → String
+    | (.point x, .point y) => outNums cd [x, y]
+    | (.halves l1 r1, .halves l2 r2) =>
+      outList cd l1 ++ " " ++ outNums cd l2 ++ " " ++ outList cd r1 ++ " " ++ outNums cd r2
+    | _ => "?"
+  some (" | ".intercalate ((rx.1.zip ry.1).map one ++
+    [outList cd rx.2 ++ " " ++ outNums cd ry.2 ++ " backing=ok"]))
+
 def parseSegs (cd : Codec α) (ws : List String) : Option (List (Seg α)) := do
   let n ← (← ws.head?).toNat?
   let (xs, _) ← takeN cd (4 * n) (ws.drop 1)
@@ -322,6 +355,98 @@ def handleBisect (cd : Codec α) (ws : List String) : Option String := do
     match bisectionSearch (fun t => bezEval tbl xs t) x with
     | none => some "nan"
     | some t => some (outNums cd [t])
+  | _ => none
+
+/-- `evalx x <curve>`: `CurveEvalX` / `BezierCurve.EvalX` (the harness passes the transposed curve for
+`CurveTranspose`): bisection on the `x` coordinate, then the `y` coordinate at the parameter found. -/
+def handleEvalX (cd : Codec α) (ws : List String) : Option String := do
+  match ws with
+  | x :: rest =>
+    let x ← cd.parse x
+    let (xs, ys, _) ← takeCurve cd rest
+    match curveEvalX (fun t => bezEval tbl xs t) (fun t => bezEval tbl ys t) x with
+    | none => some "nan"
+    | some y => some (outNums cd [y])
+  | _ => none
+
+/-- `segbisect x <segs>`: `CurveInverseX` on a `SegmentCurve` (65 evaluations of one curve value). -/
+def handleSegBisect (cd : Codec α) (sqrt : α → α) (ws : List String) : Option String := do
+  match ws with
+  | x :: rest =>
+    let x ← cd.parse x
+    let segs ← parseSegs cd rest
+    if segs.isEmpty then some "panic" else
+    match bisectionSearch (fun t => (segEval sqrt segs t).1) x with
+    | none => some "nan"
+    | some t => some (outNums cd [t])
+  | _ => none
+
+def lexLt : List α → List α → Bool
+  | [], [] => false
+  | [], _ => true
+  | _, [] => false
+  | a :: as, b :: bs => if a < b then true else if b < a then false else lexLt as bs
+
+/-- `curvemesh n <curve>`: `CurveMesh(c, n)`; the segments as a sorted multiset (the mesh is a Go map).  Exact mode:
+the specification (de Casteljau's points at `k/n`), bit mode: `bezEval`. -/
+def handleCurveMesh (cd : Codec α) (exact : Bool) (ws : List String) : Option String := do
+  match ws with
+  | n :: rest =>
+    let n ← n.toNat?
+    let (xs, ys, _) ← takeCurve cd rest
+    if xs.length < 2 then some "panic" else
+    let f : α → α × α := fun t =>
+      if exact then (deCasteljau xs t, deCasteljau ys t) else (bezEval tbl xs t, bezEval tbl ys t)
+    let segs := (curveMesh f n).map fun s => [s.1.1, s.1.2, s.2.1, s.2.2]
+    if segs.any (fun s => s.any cd.bad) then some "nan" else
+    some (s!"[{n}] " ++ " | ".intercalate ((sortBy lexLt segs).map (outNums cd)))
+  | _ => none
+
+/-! ### `BiCGSTAB` / `BiCGSTABSolver` with a dense matrix as `Op` (faithful model `M3d/Model/BiCG.lean`) -/
+
+def chunks (n : Nat) : Nat → List α → List (List α)
+  | 0, _ => []
+  | k + 1, xs => xs.take n :: chunks n k (xs.drop n)
+
+/-- `<n> <A: n*n> <b: n> <0 | 1 g: n>` off the front: operator rows, right-hand side, optional initial guess. -/
+def takeSystem (cd : Codec α) (ws : List String) : Option (List (List α) × List α × Option (List α) × List String) := do
+  let n ← (← ws.head?).toNat?
+  let (a, r) ← takeN cd (n * n) (ws.drop 1)
+  let (b, r) ← takeN cd n r
+  match r with
+  | "0" :: r => some (chunks n n a, b, none, r)
+  | "1" :: r => do
+    let (g, r) ← takeN cd n r
+    some (chunks n n a, b, some g, r)
+  | _ => none
+
+/-- `bicg <system> <k>`: the vectors returned by `k` successive `Iter()` calls. -/
+def handleBicg (cd : Codec α) (sqrt : α → α) (ws : List String) : Option String := do
+  let (rows, b, g, r) ← takeSystem cd ws
+  let k ← (← r.head?).toNat?
+  let op := BiCG.denseOp rows
+  let rec go : Nat → BiCG.St α → List String → List String
+    | 0, _, acc => acc.reverse
+    | k + 1, s, acc =>
+      let s' := BiCG.iter sqrt op s
+      go k s' (outList cd s'.x :: acc)
+  some (" | ".intercalate (go k (BiCG.init op b g) []))
+
+/-- `bicgsolve <system> <MaxIters> <MSETolerance> <MAETolerance>`: `BiCGSTABSolver.SolveLinearSystem`. -/
+def handleBicgSolve (cd : Codec α) (sqrt abs : α → α) (isNaN : α → Bool) (ws : List String) : Option String := do
+  let (rows, b, g, r) ← takeSystem cd ws
+  match r with
+  | [mi, mse, mae] =>
+    let mi ← mi.toNat?
+    let mse ← cd.parse mse; let mae ← cd.parse mae
+    let z := ((0 : Nat) : α)
+    if b.isEmpty then some "[0]" else
+    if mi == 0 && !(z < mae) && !(z < mse) then some "panic" else
+    let bound := if mi == 0 then 20000 else mi
+    match BiCG.solve sqrt abs isNaN (BiCG.denseOp rows) b g bound mse mae with
+    | .nanPanic _ => some "panic"
+    | .done sol k byTol =>
+      if mi == 0 && !byTol then some "running" else some (outList cd sol)
   | _ => none
 
 def handleAngle (cd : Codec α) (trunc : α → Int) (ws : List String) : Option String := do
@@ -413,12 +538,17 @@ def handleG (cd : Codec α) (sqrt : α → α) (trunc : α → Int) (exact : Boo
   | "rls" :: rest => handleRls cd rest
   | "gss" :: rest => handleGss cd rest
   | "bez" :: rest => handleBez cd exact rest
+  | "bezops" :: rest => handleBezOps cd exact rest
   | "seg" :: rest => handleSeg cd sqrt exact rest
   | "joined" :: rest => handleJoined cd trunc rest
   | "bisect" :: rest => handleBisect cd rest
+  | "evalx" :: rest => handleEvalX cd rest
+  | "segbisect" :: rest => handleSegBisect cd sqrt rest
+  | "curvemesh" :: rest => handleCurveMesh cd exact rest
   | "angle" :: rest => handleAngle cd trunc rest
   | "poly" :: rest => handlePolyG cd exact rest
   | "vec" :: rest => handleVec cd sqrt rest
+  | "bicg" :: rest => handleBicg cd sqrt rest
   | _ => none
 
 end Generic
@@ -487,6 +617,7 @@ def handleAll (ws : List String) : Option String :=
     match km.splitOn "." with
     | ["scov", "f"] => handleScov rest
     | [kind, "q"] => handleQ (kind :: rest)
+    | ["bicgsolve", "f"] => handleBicgSolve floatCodec Float.sqrt Float.abs Float.isNaN rest
     | [kind, "f"] => handleG floatCodec Float.sqrt floatTrunc false (kind :: rest)
     | ["resid", "v"] => some "ok"
     | _ => none
